@@ -5,9 +5,18 @@ import (
 	"os"
 	"sort"
 	"strings"
+	"sync"
+	"time"
 
+	clusterv3 "github.com/envoyproxy/go-control-plane/envoy/config/cluster/v3"
+	"google.golang.org/protobuf/proto"
+
+	networking "istio.io/api/networking/v1alpha3"
 	"istio.io/istio/pilot/pkg/model"
+	v3 "istio.io/istio/pilot/pkg/xds/v3"
 	xdsfake "istio.io/istio/pilot/test/xds"
+	"istio.io/istio/pkg/cluster"
+	"istio.io/istio/pkg/config/schema/gvk"
 	"istio.io/istio/pkg/security"
 	"verifharness/internal/quiet"
 	"verifharness/internal/vh"
@@ -195,11 +204,18 @@ func reproMain(args []string) int {
 		for _, r := range repros {
 			fmt.Printf("  %-30s cause=%s\n", r.Name, r.Cause)
 		}
+		fmt.Printf("  %-30s cause=%s\n", reproPushRaceName, causeBetweenClearAndPublish)
 		return 2
 	}
 	quiet.Logs("none")
 	rc := 0
 	found := false
+	if args[0] == "all" || args[0] == reproPushRaceName {
+		found = true
+		if runReproPushRace() {
+			rc = 1
+		}
+	}
 	for _, r := range repros {
 		if args[0] == "all" || args[0] == r.Name {
 			found = true
@@ -277,4 +293,123 @@ func gwString(g []model.NetworkGateway) string {
 		return "none"
 	}
 	return strings.Join(out, " ")
+}
+
+// ---------------------------------------------------------------------------------------
+// The finding of the history monitor on the unchanged tree, made deterministic: the debounce goroutine is parked
+// in the gap between DiscoveryServer.dropCacheForRequest and Environment.SetPushContext (a gate behind the
+// harness' cache wrapper, run after the real invalidation has completed; nothing else is changed).
+
+const reproPushRaceName = "push-between-invalidation-and-publication"
+
+const reproPushRaceYAML = `
+apiVersion: networking.istio.io/v1
+kind: ServiceEntry
+metadata: {name: foo, namespace: ns1}
+spec:
+  hosts: [foo.example.com]
+  resolution: STATIC
+  ports: [{number: 80, name: http, protocol: HTTP}]
+  endpoints: [{address: 10.0.0.1}]
+---
+apiVersion: networking.istio.io/v1
+kind: DestinationRule
+metadata: {name: foo, namespace: ns1}
+spec:
+  host: foo.example.com
+  trafficPolicy: {connectionPool: {tcp: {maxConnections: 100}}}
+`
+
+func runReproPushRace() (reproduced bool) {
+	defer func() {
+		if p := recover(); p != nil {
+			fmt.Printf("repro %s: could not be set up: %v\n", reproPushRaceName, p)
+		}
+	}()
+	const res = "outbound|80||foo.example.com"
+	fmt.Printf("=== repro %s (cause=%s)\n", reproPushRaceName, causeBetweenClearAndPublish)
+	fmt.Println("DiscoveryServer.initPushContext computes the next snapshot, invalidates the cache (dropCacheForRequest) and only then publishes the snapshot (SetPushContext). " +
+		"DiscoveryServer.ProxyUpdate (pod / WorkloadEntry label change of a connected proxy; likewise the debug push) builds PushRequest{Push: s.globalPushContext(), Start: time.Now()}. " +
+		"A ProxyUpdate that runs in the gap gets the PREVIOUS snapshot with a Start LATER than the invalidation: its generation misses, rebuilds the resource from the old config, " +
+		"and lruCache.Add accepts it (token >= cache token). Nothing invalidates the entry until the same config changes again.")
+	fmt.Printf("\n--- world\n%s\n", strings.TrimSpace(reproPushRaceYAML))
+	s := startServerWith(xdsfake.FakeOptions{ConfigString: reproPushRaceYAML, MeshConfig: meshDefault(), DefaultClusterName: "c1", DebounceTime: 3 * time.Millisecond}, nil, time.Microsecond)
+	defer s.close()
+	a, b := profiles["sidecar-ns1"].clone(), profiles["sidecar-ns1"].clone()
+	b.IPs = []string{"10.99.0.9"}
+	clA, clB := connectClient(s, 0, a), connectClient(s, 1, b)
+	defer func() {
+		for _, cl := range []*adsClient{clA, clB} {
+			cl.st.Cancel()
+			close(cl.quit)
+		}
+	}()
+	waitIdle(s.ds)
+	fmt.Printf("--- connected proxies A [%s] and B [%s]; C is a proxy that connects later (same attributes as B)\n", specString(a), specString(b))
+	maxConn := func(gs genset, sp proxySpec) string {
+		push := s.srv.PushContext()
+		o := generate(gs, s.srv.SetupProxy(sp.build()), push, nil)
+		c := &clusterv3.Cluster{}
+		m := decodeRes(o.res["cds"][res])
+		if m == nil {
+			vh.Abort("cluster %s not generated", res)
+		}
+		proto.Merge(c, m)
+		return fmt.Sprint(c.GetCircuitBreakers().GetThresholds()[0].GetMaxConnections().GetValue())
+	}
+	fmt.Printf("step 0: CDS %s circuit_breakers.thresholds[0].max_connections as served = %s\n", res, maxConn(s.warm, b))
+
+	entered, release := make(chan struct{}), make(chan struct{})
+	var once sync.Once
+	gate := func() {
+		once.Do(func() {
+			close(entered)
+			<-release
+		})
+	}
+	old := s.srv.Env().PushContext()
+	s.in.afterClear.Store(&gate)
+	cur := s.srv.Store().Get(gvk.DestinationRule, "foo", "ns1")
+	if cur == nil {
+		vh.Abort("DestinationRule not found")
+	}
+	upd := cur.DeepCopy()
+	upd.Spec.(*networking.DestinationRule).TrafficPolicy.ConnectionPool.Tcp.MaxConnections = 200
+	if _, err := s.srv.Store().Update(upd); err != nil {
+		vh.Abort("update: %v", err)
+	}
+	select {
+	case <-entered:
+	case <-time.After(30 * time.Second):
+		vh.Abort("the push of the DestinationRule update did not reach the invalidation")
+	}
+	fmt.Println("step 1: DestinationRule foo updated to maxConnections 200; the push computed the new snapshot, invalidated the cache and is parked before SetPushContext; published snapshot is still the previous one:", s.srv.Env().PushContext() == old)
+	before := clA.responses(v3.ClusterType)
+	s.ds.ProxyUpdate(cluster.ID(a.Cluster), a.IPs[0])
+	for deadline := time.Now().Add(30 * time.Second); clA.responses(v3.ClusterType) == before; time.Sleep(time.Millisecond) {
+		if time.Now().After(deadline) {
+			vh.Abort("A was not pushed after ProxyUpdate")
+		}
+	}
+	for {
+		if p, q := s.ds.PushQueueStateForVerif(); p == 0 && q == 0 {
+			break
+		}
+		time.Sleep(time.Millisecond)
+	}
+	fmt.Println("step 2: DiscoveryServer.ProxyUpdate(A) was served from the previous snapshot (legitimate: the new one is not published)")
+	close(release)
+	waitIdle(s.ds)
+	fmt.Println("step 3: the push proceeds: snapshot published and pushed to A and B; published snapshot is new:", s.srv.Env().PushContext() != old)
+	c := b.clone()
+	c.IPs = []string{"10.99.0.10"}
+	served, fresh := maxConn(s.warm, c), maxConn(s.cold, c)
+	fmt.Printf("step 4: proxy C connects: max_connections served from the cache = %s, uncached generation on the same snapshot = %s\n", served, fresh)
+	fmt.Println("property C06 demands: once a configuration change has been accepted no resource derived from the older state is handed out for a newer snapshot, under any interleaving of generation, invalidation and insertion.")
+	if served != fresh {
+		fmt.Printf("RESULT %s: REPRODUCED - the cluster built from the DestinationRule before its update is served for the new snapshot\n\n", reproPushRaceName)
+		return true
+	}
+	fmt.Printf("RESULT %s: not reproduced\n\n", reproPushRaceName)
+	return false
 }
